@@ -214,6 +214,19 @@ def lfo(F, R):
                 okv = a2 is not None and len(a2) == 2 and any('.amplitude' in x for x in a2) \
                     and any('Waveform::value(' in x and '(*self).phase' in x for x in a2)
         okv = okv and all(b.dominates(va[0][0], r) for r in b.return_blocks()) and bool(wrap) and (wrap[0][0], wrap[0][1]) < (va[0][0], va[0][1])
+    vb = F.body('<modulator::lfo::Lfo as modulator::Modulator>::value')
+    if R.check(vb is not None, 'B.C17.lfo', 'anchor:value', 'Lfo::value not found'):
+        rets = [str(p.ret) for p in explore(vb) if p.end == 'return']
+        R.check(rets == ['(*self).value'], 'B.C17.lfo', 'getter', 'Lfo::value returns %s, not the value it computed' % rets, detail={'returns': rets})
+    ob = F.body('<modulator::lfo::Lfo as modulator::Modulator>::on_start_processing')
+    if R.check(ob is not None, 'B.C17.lfo', 'anchor:osp', 'Lfo::on_start_processing not found'):
+        stp = [describe_rv(ob, s2['rv'], depth=5, at=bb) for bb, si, s2 in ob.stmts()
+               if s2['k'] == 'assign' and s2['lhs']['p'] and pretty_place(ob, s2['lhs']) == '(*self).phase']
+        other = [pretty_place(ob, s2['lhs']) for bb, si, s2 in ob.stmts()
+                 if s2['k'] == 'assign' and s2['lhs']['p'] and pretty_place(ob, s2['lhs']) in ('(*self).value',)]
+        R.check(any(x.startswith('Div(') and 'set_phase' in x for x in stp) and not other, 'B.C17.lfo', 'set_phase',
+                'the set_phase command is not stored into the phase (as radians / TAU): phase stores %s, other stores %s' % (stp, other),
+                detail='phase = command / TAU')
     R.check(okv, 'B.C17.lfo', 'value', 'Lfo::update does not set value = offset + amplitude * waveform(phase) after advancing the phase (stores: %s)' % [x[3][:80] for x in va],
             detail='value = offset + amplitude * waveform.value(phase)', where=b.file)
 
